@@ -24,7 +24,11 @@ Oracle (reference = three-valued closure of vf/batchgen.py, no Loki code):
     the reference file graph itself is cyclic; recursion (recurse_to_modules / recurse_to_procedures) reaches no
     item outside must-have + don't-care + enclosing modules, each at most once per file;
   * SEQUENCE and PLAN produce the same log.
-Refusals: a RuntimeError for an ExternalItem under strict; "requires Module to be complete" when a non-procedure
+External rule (transform.rst): with strict (documented default True, the base configuration has no `strict` key) an
+item-graph traversal whose item filter selects the origin kind of an ExternalItem must raise "marked as external";
+without strict, or when the kind is not selected, it must not.  Mode rule for file graphs: a file item carries the
+default mode, so process_transformation(mode=m) with a file-graph transformation touches no file when m differs.
+Refusals: the required RuntimeError for a selected ExternalItem under strict; "requires Module to be complete" when a non-procedure
 item is processed without enable_imports (documented limitation: only control-flow dependencies are parsed).
 """
 import collections
@@ -70,6 +74,9 @@ def manifests():
     for m in ('base', 'alt'):
         out.append(dict(filter='proc', reverse=False, ignored=False, filegraph=False, recurse=False, mode=m))
         out.append(dict(filter='all', reverse=True, ignored=True, filegraph=False, recurse=False, mode=m))
+        # the `mode=` argument must also select in file-graph traversals (per-mode pipelines with a file transformation)
+        out.append(dict(filter='proc', reverse=False, ignored=False, filegraph=True, recurse=False, mode=m))
+        out.append(dict(filter='proc+mod', reverse=True, ignored=True, filegraph=True, recurse=False, mode=m))
     return out
 
 
@@ -117,7 +124,8 @@ def judge(project, clo, man, log, root):
     allnodes.update(clo.must_nodes)
 
     def mode_ok(k, kind):
-        if man['mode'] is None or kind in ('TypeDef', 'Interface', 'External'):
+        # item traversal: the mode filter applies to the items; file traversal: to the files (see below)
+        if man['mode'] is None or man['filegraph'] or kind in ('TypeDef', 'Interface', 'External'):
             return True
         return clo.rolemode[k][1] == man['mode']
 
@@ -169,6 +177,10 @@ def judge(project, clo, man, log, root):
     file_of = lambda k: project.file_of(k).lower() if k in project.items else None
     must_files = {file_of(k) for k in must_visit}
     may_files = {file_of(k) for k in may_visit}
+    if man['mode'] is not None and clo.cfg.default.get('mode') != man['mode']:
+        # a file item carries the configured default mode (no routine entry names a file): a traversal for
+        # another mode must not touch any file
+        must_files, may_files = set(), set()
     cnt = collections.Counter(seq)
     for f, c in sorted(cnt.items()):
         if c > 1:
@@ -178,6 +190,9 @@ def judge(project, clo, man, log, root):
             return ('file-not-visited', f'[{tag}] file {f} contains an item that must be processed; files visited: {seq}')
     for f in seq:
         if f not in may_files:
+            if man['mode'] is not None and clo.cfg.default.get('mode') != man['mode']:
+                return ('file-visited-mode-mismatch', f'[{tag}] file {f} has mode {clo.cfg.default.get("mode")!r} but was '
+                        f'processed by a traversal for mode {man["mode"]!r}: {seq}')
             return ('file-visited-unexpected' + ('' if f in lower_files else ' unknown-file'),
                     f'[{tag}] file {f} holds no selected item but was processed: {seq}')
     # order: only if the reference file graph (over selectable items) is acyclic
@@ -243,7 +258,10 @@ def run_state(project, root, cspec, perm):
     strategies = [('PLAN', ProcessingStrategy.PLAN)]
     if made['full_parse']:
         strategies.insert(0, ('SEQUENCE', ProcessingStrategy.SEQUENCE))
-    has_external = any(k == 'External' for k, _ in bg.observe_graph(sched)['nodes'].values())
+    externals = [(it.name.lower(), getattr(it.origin_cls, '__name__', 'Item')[:-4])
+                 for it in sched.items if type(it).__name__ == 'ExternalItem']
+    has_external = bool(externals)
+    strict = made['config']['default'].get('strict', True)      # documented default: True
     nruns = 0
     refused = [0]
     for man in MANIFESTS:
@@ -252,10 +270,20 @@ def run_state(project, root, cspec, perm):
             log = []
             probe = make_probe(man, log)
             nruns += 1
+            # documented (transform.rst): external items are skipped unless strict, then an error is issued
+            # for an external item that matches the item filter (item-graph traversals)
+            must_refuse = strict and not man['filegraph'] and any(k in FILTERS[man['filter']] for _, k in externals)
             try:
                 sched.process_transformation(probe, proc_strategy=strat, mode=man['mode'])
+                if must_refuse:
+                    return 'fail', 'external-item-not-refused-under-strict', \
+                        f'[{man}] {sname}: strict (default True) and the selected kinds include the external item(s) ' \
+                        f'{externals}, but processing did not raise; log {log}', nruns
             except Exception as e:   # pylint: disable=broad-except
                 if has_external and 'external' in str(e).lower():
+                    if not must_refuse:
+                        return 'fail', 'external-item-refused-unexpectedly', \
+                            f'[{man}] {sname}: raised {e} although strict={strict} / kinds {FILTERS[man["filter"]]} vs {externals}', nruns
                     logs[sname] = None
                     continue
                 if 'to be complete' in str(e) and not made['config']['default'].get('enable_imports') \
@@ -360,19 +388,26 @@ def run(ctx):
     f1 = [s for s in bg.enumerate_projects(3, feature_budget=1, names=names) if s['features']]
     core_layouts = ('free', 'ownmod', 'shared', 'mixed', 'allmod', 'bundle_mixed', 'split', 'casedirs')
     f0core = [s for s in f0 if s['layout'] in core_layouts]
+    q_layouts = ('free', 'ownmod', 'mixed')
+    f0q = [s for s in f0 if s['layout'] in q_layouts]
+    f1q = [s for s in f1 if s['imp'] == 'only']
     stages = [
         ('P1: n<=3, feature-free projects (every layout x import style); base configuration; every discovery order',
          lambda: make_units(f0, 0, 0, 'all')),
-        ('P2: n<=3, feature-free projects, 8 core layouts; configuration deviations of weight 1 (incl. role/mode '
-         'overrides, no-full-parse = PLAN only); sorted discovery order', lambda: make_units(f0core, 1, 1, 'id')),
-        ('P3: n<=3, projects with one feature; base configuration; sorted discovery order', lambda: make_units(f1, 0, 0, 'id')),
+        ('P2: n<=3, projects with one feature and ONLY-imports; base configuration; sorted discovery order',
+         lambda: make_units(f1q, 0, 0, 'id')),
+        ('P3: n<=3, feature-free projects, layouts free/ownmod/mixed; configuration deviations of weight 1 (incl. role/mode '
+         'overrides, no-full-parse = PLAN only); sorted discovery order', lambda: make_units(f0q, 1, 1, 'id')),
     ]
     if not ctx.quick:
-        rest = [s for s in f0 if s['layout'] not in core_layouts]
+        rest = [s for s in f0 if s['layout'] not in q_layouts]
+        f1rest = [s for s in f1 if s['imp'] != 'only']
         f0p5 = [s for s in f0 if s['layout'] in ('free', 'ownmod', 'mixed')]
         stages += [
             ('P4: n<=3, feature-free projects, remaining layouts; configuration deviations of weight 1; sorted discovery order',
              lambda: make_units(rest, 1, 1, 'id')),
+            ('P4b: n<=3, projects with one feature and bare/renamed imports; base configuration; sorted discovery order',
+             lambda: make_units(f1rest, 0, 0, 'id')),
             ('P5: n<=3, feature-free projects, layouts free/ownmod/mixed; configuration deviations of weight 2; sorted discovery order',
              lambda: make_units(f0p5, 2, 2, 'id')),
         ]
